@@ -6,6 +6,26 @@ ALL = ["C%02d" % i for i in range(1, 21)]
 
 # id -> (level, technique, level text, level note, design ref)
 CHECKS = {
+    "C07": ("exploration",
+            "runtime monitoring: unique-id (unambiguous) histories replayed through a sequential namespace model per connection; concurrent same-name groups under the Go race detector with yield injection",
+            "Exhaustive short histories plus random histories over a 3-name pool; the exec callback's statement id and parameter bytes and the portal Describe's column names identify the definition used, which must be the one the model resolves; concurrent groups are judged per connection and the race log must be empty. Held-on-observed.",
+            "Trusts transport/parser/model; per-connection sequentiality (one serving goroutine) is an assumption of the oracle.",
+            "DESIGN.md 4/C07"),
+    "C08": ("exploration",
+            "runtime monitoring: sent-vs-received parameter oracle inside the statement callback + independent value codecs for Scan and result formats",
+            "Generated Binds (counts up to 65535, NULL/empty/NUL-containing/typed values, the three format-vector shapes) run against the real server; the statement function's view (count, order, bytes, nil-ness, Format, Scan) and the portal's announced/used result formats are compared with what the client sent. Held-on-observed.",
+            "Trusts transport/parser and the harness's own value encoders/decoders.",
+            "DESIGN.md 4/C08"),
+    "C09": ("exploration",
+            "runtime monitoring: differential oracle - every DataRow field decoded by an independent text/binary decoder and compared with the value the handler wrote",
+            "Generated tables over 18 (20 in thorough) column types with boundary values and five NULL forms, fetched in text and binary; field count, format codes, NULL marker and decoded values compared. Held-on-observed.",
+            "Trusts the harness's decoders (written from the PostgreSQL docs, tolerant of PostgreSQL's input syntax).",
+            "DESIGN.md 4/C09"),
+    "C17": ("exploration",
+            "runtime monitoring: flattening reference model vs strictly parsed ErrorResponse fields (exhaustive decorator sequences + random)",
+            "All decorator sequences to depth 4 (5 in thorough) x value variants, returned from parser and statement functions in simple and extended mode; every field compared. Held-on-observed.",
+            "Trusts the 40-line flattening model (hs.ErrSpec.Expect) and the strict parser.",
+            "DESIGN.md 4/C17"),
     "C01": ("exploration",
             "runtime monitoring: transcript + callback-trace oracle on non-accepted connections (generated credentials, malformed password messages, pipelined/late continuations)",
             "Real server with ClearTextPassword/custom strategies over the instrumented transport; every non-accepting connection must show R(3) [E] + the server's own Close and no callback other than the validator; accepting ones must reach a working session. Held-on-observed.",
